@@ -132,6 +132,13 @@ func (d *decoder) varint() uint64 {
 		return 0
 	}
 	v, n := binary.Uvarint(d.buf)
+	if n <= 0 {
+		// n == 0 means the buffer ended inside the varint, n < 0 means it
+		// overflows 64 bits. Either way the input is damaged; slicing with a
+		// negative n would panic.
+		d.err = io.ErrUnexpectedEOF
+		return 0
+	}
 	d.buf = d.buf[n:]
 	return v
 }
